@@ -107,6 +107,28 @@ def run(rep, br, proofs, rng, tier):
             for s in stmts(n, True, False):
                 if "break" in str(s) or "continue" in str(s):
                     for p in contexts_loop(s): progs.append(p)
+    # loops one node larger than the exhaustive bound whose body leaves a try statement by
+    # break/continue, after every kind of completed try statement
+    for s in stmts(maxn, True, False):
+        if ("break" in str(s) or "continue" in str(s)) and "try" in str(s):
+            for h in H:
+                progs.append([("fn", h, ("loop", s), ("log", "0"))])
+    # statements containing calls of f0, for several callee behaviours
+    callees = [("fn", ("throw", "0")), ("fn", ("ret", "0")), ("fn", ("log", "0")), ("fn", ("fail",)),
+               ("fn", ("try", ("body", ("throw", "0")), ("nocatch",), ("fin", ("log", "0")))),
+               ("fn", ("try", ("body", ("ret", "0")), ("nocatch",), ("fin", ("log", "0"))))]
+    for n in range(2, maxn + 1):
+        for s in stmts(n, False, True):
+            if "call" not in str(s): continue
+            for cal in callees:
+                progs.append([cal, ("fn", s, ("log", "0"))])
+                if n <= maxn - 1:
+                    progs.append([cal, ("fn", H[0], ("try", ("body", s), ("catch", "1"), ("fin", ("log", "0"))), ("log", "0"))])
+        if n <= maxn - 1:
+            for s in stmts(n, True, True):
+                if "call" in str(s) and ("break" in str(s) or "continue" in str(s)):
+                    for cal in callees[:2]:
+                        progs.append([cal, ("fn", ("loop", s), ("log", "0"))])
     # larger skeletons: seeded sample
     big = stmts(maxn + 1, False, False)
     k = 4000 if tier == "quick" else 60000
